@@ -88,6 +88,21 @@ def run(ck: Check):
                         ck.violation(f"{strategy}/{atom}: write number {k} to the testcase file failed half-way (once); "
                                      f"the run ended ({run_.exc}) leaving {run_.final!r}, which is not the original with "
                                      f"reducible atoms deleted", replay_doc(ctx, run_, write_fault=k))
+    # option values that are not positive powers of two are refused at start-up (C14); should one ever be accepted, the
+    # candidates it produces must still be sub-deletions (a negative chunk size makes rmslice duplicate the tail)
+    from runner import Refused, impl_run
+    for strategy in ("minimize", "minimize-around", "minimize-balanced"):
+        for argv in (["--chunk-size", "-2"], ["--min", "-4"], ["--max", "-2"], ["--chunk-size=-1"], ["--max", "0"], ["--min=3"]):
+            tcx = (b"<", [b"l%d\n" % i for i in range(8)], [True] * 8, b">")
+            ck.count("odd-options")
+            try:
+                run_ = impl_run(strategy, {"argv": argv}, tcx, content(tcx), "Y" + "NY" * 200, cap=400)
+            except Refused:
+                continue
+            ck.nontrivial(("odd-options", strategy, tuple(argv)))
+            ctx = {"strategy": strategy, "cfg": {"argv": argv}, "tc": tcx, "file0": content(tcx), "verdicts": "YNY...",
+                   "clock": [], "atom": "line", "exc_class": "TestRaised", "load": False}
+            oracle_c04(ck, ctx, run_)
     # one Lithium / testcase / strategy object for two consecutive files (nothing of the first file may show up
     # in what the test sees of the second)
     from universe import session_universe
